@@ -36,7 +36,7 @@ def handle (toks : List String) : Option String :=
         let logs := " | LOG " ++ log
         match e with
         | .fail msg mi =>
-          let m := if "crash#".toList.isPrefixOf msg then encStr msg else "runner-msg"
+          let m := if "crash#".toList.isPrefixOf msg || "Exit with error code: ".toList.isPrefixOf msg then encStr msg else "runner-msg"
           "fail " ++ m ++ " " ++ encMeta mi ++ logs
         | .exitCalled => "ok | VARS " ++ encVars rs.vars ++ logs
         | .reachedEnd => "ok | VARS " ++ encVars rs.vars ++ logs
